@@ -1,6 +1,7 @@
 /- Driver/OpsGraph.lean — graph / d-separation ops (C08, C12, C13, C18) -/
 import Driver.Json
 import PgmVerif.Model.Graph
+import PgmVerif.Model.Causal
 open Lean PgmVerif PgmVerif.Drv
 namespace PgmVerif.Drv
 
@@ -41,6 +42,10 @@ def handleGraph (op : String) (j : Json) : Option (Except String Json) :=
       match g.minimalDsep lat x y with
       | none => pure Json.null
       | some s => pure (jNats (sortNats s))
+  | "causal_criteria" => some do
+      let g ← getDG (← fld j "g"); let x ← fldNat j "x"; let y ← fldNat j "y"; let zs ← fldNats j "zs"
+      pure (Json.mkObj [("backdoor", Json.bool (g.backdoorOK x y zs)), ("blocks", Json.bool (g.blocksBackdoor x y zs)),
+                        ("frontdoor", Json.bool (g.frontdoorOK x y zs))])
   | _ => none
 
 end PgmVerif.Drv
